@@ -99,7 +99,19 @@ fn scenario(env: &Env, k: u64, case: u64, rng: &mut rand::rngs::SmallRng, d: &mu
     } else {
         (timeout_ms, slow, reqs)
     };
+    // "all timeouts": one paused run in ten is given a timeout that means "no limit" - the largest Duration, the
+    // largest number of seconds, 2^62 s, 2^32 s - through either entry point. Such a run must contain a request.
+    let mut reqs = reqs;
+    let huge: Option<(Duration, bool)> = if multi.is_none() && n_harness > 0 && rng.chance(1, 10) {
+        if reqs.is_empty() {
+            reqs.push(ShutReq { machine: 0, at_ms: 5, status: 100 });
+        }
+        Some((*rng.pick(&[Duration::MAX, Duration::from_secs(u64::MAX), Duration::from_secs(1 << 62), Duration::from_secs(1 << 32), Duration::from_millis(u64::MAX)]), rng.chance(1, 2)))
+    } else {
+        None
+    };
     let desc = json!({
+        "huge_timeout": huge.map(|(h, direct)| format!("{h:?} through {}", if direct { "run_internet" } else { "run_internet_with_timeout" })),
         "runtime": multi.map(|w| format!("multi_thread({w})")).unwrap_or("current_thread paused".into()),
         "builtin": format!("{builtin:?}"), "arp": with_arp, "harness_apps": n_harness, "machines_without_protocols": n_empty, "slow_init_ms": slow, "never_finishing": never,
         "timeout_ms": timeout_ms, "shutdown_requests": reqs.iter().map(|r| format!("{r:?}")).collect::<Vec<_>>(), "scenario": k, "case": case,
@@ -248,7 +260,11 @@ fn scenario(env: &Env, k: u64, case: u64, rng: &mut rand::rngs::SmallRng, d: &mu
                 machines.push(Machine::new().arc());
             }
             let t_before = tokio::time::Instant::now();
-            let status = run_internet_with_timeout(&machines, ms(timeout_ms)).await;
+            let status = match huge {
+                Some((h, true)) => elvis_core::run_internet(&machines, Some(h)).await,
+                Some((h, false)) => run_internet_with_timeout(&machines, h).await,
+                None => run_internet_with_timeout(&machines, ms(timeout_ms)).await,
+            };
             let elapsed = tokio::time::Instant::now().duration_since(t_before);
             let returned_stamp = stamp();
             // let stragglers (tasks still running after the return) show themselves
@@ -295,7 +311,7 @@ fn scenario(env: &Env, k: u64, case: u64, rng: &mut rand::rngs::SmallRng, d: &mu
         d.tally("barrier_windows_observed", 1);
     }
     // ---- status
-    let t_out = ms(timeout_ms);
+    let t_out = huge.map(|(h, _)| h).unwrap_or(ms(timeout_ms));
     let before: Vec<&(u32, u64, u64, Duration)> = rq.iter().filter(|r| r.1 < returned_stamp).collect();
     match &status {
         ExitStatus::TimedOut => {
@@ -361,7 +377,7 @@ fn scenario(env: &Env, k: u64, case: u64, rng: &mut rand::rngs::SmallRng, d: &mu
             }
         }
     }
-    if multi.is_none() && elapsed > t_out + Duration::from_secs(1) {
+    if multi.is_none() && elapsed > t_out.saturating_add(Duration::from_secs(1)) {
         d.violation("returned-later-than-timeout-plus-1s", format!("run_internet_with_timeout({t_out:?}) returned after {elapsed:?} of simulated time"), witness(json!({})));
         return;
     }
